@@ -588,6 +588,13 @@ def run_property(prop, obligations, tier, seed, level_note, keep=False):
                 seen_sites.add(site)
                 path = R.write_replay(r.ob, f)
                 verdict, detail = R.native_replay(r.ob, path)
+                if (f['desc'].startswith('unwinding assertion') or '.unwind.' in f['id']) and verdict != 'reproduced':
+                    # a loop bound that is merely too small for the harness is not a termination defect:
+                    # only a native run that actually hangs (30 s watchdog) turns it into a violation
+                    f['classification'] = 'unwinding-bound-too-small'
+                    inconclusive.append({'obligation': r.ob.name, 'reason': 'unwinding assertion %s failed but the native replay terminates (%s): bound too small' % (f['id'], verdict)})
+                    print('INCONCLUSIVE %s unwinding assertion %s at %s:%s not confirmed by native replay (%s)' % (r.ob.name, f['id'], f['function'], f['line'], verdict))
+                    continue
                 f['classification'] = 'violation:' + verdict
                 try:
                     d = json.load(open(path))
@@ -621,6 +628,13 @@ def run_property(prop, obligations, tier, seed, level_note, keep=False):
                         'with the same assumptions) was shown reachable by the solver, i.e. non-vacuous',
                 'samples': [r.sample() for r in results],
                 'obligations': len(results), 'discharged': n_pass,
+                # model_checking keys: states = symbolic-execution steps encoded (sum over obligations of the size of the
+                # program expression handed to the solver), transitions = verification conditions generated from them,
+                # traces_validated_against_impl = native runs compared with the real code (translator-validation vectors
+                # that agreed + counterexamples replayed)
+                'states': max(1, sum(r.steps for r in results)),
+                'transitions': max(1, sum(r.vccs for r in results)),
+                'traces_validated_against_impl': sum((r.tv_vectors or 0) for r in results if r.tv_ok) + len(violations),
                 'inconclusive': inconclusive,
                 'known_findings_seen': sorted(seen_ids),
                 'ub_notes': ub_notes[:40],
